@@ -164,6 +164,8 @@ func c18(c *core.Ctx, r *core.Report) {
 		r.Check(okRet, "C18.R2", cons+":result", c.FnPos(cl), "every success return of the callback yields the formatted expression result")
 	}
 
+	// ---- R4: the text the expression stage works on has every placeholder resolved, nested ones included
+	replaceAllTable(c, r, "C18.R4")
 	// ---- R3 validation
 	for _, p := range validate {
 		c18Validate(c, r, p)
@@ -234,6 +236,33 @@ func c18Validate(c *core.Ctx, r *core.Report, p *procInfo) {
 				}
 			}
 		}
+		// nothing else may switch validation off
+		extra := ""
+		for _, cd := range c.ControlDeps(call.Block()) {
+			cond := cd.If.Cond
+			if cond == okVal {
+				continue
+			}
+			if rl := core.RangeLoopOf(fn, cd.If.Block()); rl != nil && rl.Header == cd.If.Block() {
+				continue
+			}
+			if b, ok := cond.(*ssa.BinOp); ok {
+				if propFieldLoad(c, b.X, "PropertyType") || propFieldLoad(c, b.Y, "PropertyType") {
+					continue
+				}
+				if _, isK := core.ConstInt(b.Y); isK && strings.HasSuffix(b.X.Type().String(), "reflect.Kind") {
+					continue
+				}
+				if _, isK := core.ConstInt(b.X); isK && strings.HasSuffix(b.Y.Type().String(), "reflect.Kind") {
+					continue
+				}
+			}
+			if cl, ok := cond.(*ssa.Call); ok && core.IsExtCall(cl.Common(), "(reflect.Value).CanInterface") {
+				continue
+			}
+			extra = "extra condition at " + c.Pos(cond.Pos())
+		}
+		r.Check(extra == "", "C18.R3", vc+":no-other-condition", c.Pos(call.Pos()), "validation is conditional on nothing but the validate argument, the property type, the field kind and interface access "+extra)
 		r.Check(gatedFind, "C18.R3", vc+":gated-by-validate-arg", c.Pos(call.Pos()), "validation runs only for fields carrying a validate argument")
 		r.Check(gatedType, "C18.R3", vc+":gated-by-configuration-type", c.Pos(call.Pos()), "validation runs only for configuration properties")
 		want := "non-struct"
